@@ -78,6 +78,9 @@ def check_rotation(ctx, case):
         return ctx.note_case(False, ["size<3"])
     k %= len(c)
     rot = c[k:] + c[:k]
+    # the same notes asked with other flags first: the plain question afterwards must still get the full answer
+    ctx.ok("determine/no_inversions", chords.determine, list(rot), True, True)
+    ctx.ok("determine/no_inversions", chords.determine, list(rot), False, True, True)
     r = _forms(ctx, rot)
     if r is not None:
         s, l, built = r
@@ -133,6 +136,17 @@ def check_random(ctx, case):
                    "flags:%d%d" % (bool(no_inv), bool(no_poly))])
 
 
+def check_stack(ctx, case):
+    """all seven notes of a key stacked in thirds from one degree, in one rotation: both forms answer, same length"""
+    key, d, k = case
+    ns = T.key_notes(key)
+    stack = [ns[(d + 2 * i) % 7] for i in range(7)]
+    rot = stack[k:] + stack[:k]
+    r = _forms(ctx, rot)
+    r2 = _forms(ctx, rot[:6])
+    ctx.note_case(True, ["stack7:%s" % ("answers" if r and r[0] else "no-answer"), "stack6:%s" % ("answers" if r2 and r2[0] else "no-answer")])
+
+
 def check_polychord(ctx, case):
     xr, xs, yr, ys = case
     try:
@@ -149,7 +163,7 @@ def check_polychord(ctx, case):
     ctx.note_case(True, ["polychord:whole" if whole else "polychord:note-skipped", "size%d" % min(len(c), 8)])
 
 
-CHECKS = {"rotation": check_rotation, "triad": check_triad, "small": check_small, "random": check_random,
+CHECKS = {"stack": check_stack, "rotation": check_rotation, "triad": check_triad, "small": check_small, "random": check_random,
           "polychord": check_polychord}
 
 
@@ -215,6 +229,13 @@ def _st_random():
     return st.tuples(notes_, st.booleans(), st.booleans()).map(list)
 
 
+def sub_stacks(ctx, shard, n):
+    cases = [[key, d, k] for key in T.ALL_KEYS for d in range(7) for k in range(7)]
+    if shard == 0:
+        ctx.exhaustive("seven-note stacks of thirds: key x degree x rotation", "30 keys x 7 x 7", len(cases))
+    ctx.enumerate("stack", check_stack, cases[shard::n])
+
+
 def sub_random(ctx, shard, n):
     ctx.given("random", check_random, _st_random(), 3000 if ctx.quick else 5000)
 
@@ -229,6 +250,7 @@ SUBS = [
     Sub("rotations", sub_rotations, quick=4, thorough=8),
     Sub("triads", sub_triads, quick=3, thorough=7),
     Sub("small", sub_small),
+    Sub("stacks", sub_stacks, quick=2, thorough=4),
     Sub("random", sub_random, quick=3, thorough=16),
     Sub("polychords", sub_polychords, quick=2, thorough=8),
 ]
